@@ -12,6 +12,7 @@ Open Scope N_scope.
 Record ctl := mkCtl {
   unrestricted : bool;                  (* -x *)
   execs : list (list str);              (* commands started, newest first *)
+  cdepth : nat;                         (* depth of user macro calls *)
   xcount : nat; xexh : bool;            (* user macro expansions since the top-level invocation; budget reported as exhausted *)
   incstack : list str;                  (* clean paths of the files being processed, innermost last *)
   fs : list (str * str);                (* the files of the world, by clean path *)
@@ -19,9 +20,10 @@ Record ctl := mkCtl {
 }.
 Definition cst := (ctl * st)%type.
 Definition lift (h : st -> st) (cs : cst) : cst := (fst cs, h (snd cs)).
-Definition set_execs (e : list (list str)) (c : ctl) : ctl := mkCtl (unrestricted c) e (xcount c) (xexh c) (incstack c) (fs c) (libdirs c).
-Definition set_budget (n : nat) (x : bool) (c : ctl) : ctl := mkCtl (unrestricted c) (execs c) n x (incstack c) (fs c) (libdirs c).
-Definition set_incstack (l : list str) (c : ctl) : ctl := mkCtl (unrestricted c) (execs c) (xcount c) (xexh c) l (fs c) (libdirs c).
+Definition set_execs (e : list (list str)) (c : ctl) : ctl := mkCtl (unrestricted c) e (cdepth c) (xcount c) (xexh c) (incstack c) (fs c) (libdirs c).
+Definition set_budget (n : nat) (x : bool) (c : ctl) : ctl := mkCtl (unrestricted c) (execs c) (cdepth c) n x (incstack c) (fs c) (libdirs c).
+Definition set_cdepth (d : nat) (c : ctl) : ctl := mkCtl (unrestricted c) (execs c) d (xcount c) (xexh c) (incstack c) (fs c) (libdirs c).
+Definition set_incstack (l : list str) (c : ctl) : ctl := mkCtl (unrestricted c) (execs c) (cdepth c) (xcount c) (xexh c) l (fs c) (libdirs c).
 
 (* the files of the world are keyed by clean paths; os.Stat / os.ReadFile resolve . and .. segments *)
 Definition fs_get (p : str) (c : ctl) : option str := assoc (PathClean.clean p) (fs c).
